@@ -350,7 +350,7 @@ func main() {
 			runScript(w)
 		}
 		root := vh.NewRand(int64(c.Rand.U64()))
-		for i, n := 0, c.N(150, 4000); i < n; i++ {
+		for i, n := 0, c.N(150, 1500); i < n; i++ {
 			r := root.Fork()
 			run, err := rh.NewControlRunner(me)
 			if err != nil {
